@@ -55,6 +55,15 @@ CHECKS["C02"] = dict(
     technique="CrossHair+z3 gate lemmas with stub verdict/fault, spy unpickler and TOCTOU stream; native replay",
     design="§4 C02")
 
+CHECKS["C14"] = dict(
+    text="Inductive lemma 'the cache is cold or coherent', one CrossHair lemma per mutator (every MutableSequence method and every "
+         "injection helper): base program, cache state (cold / partly warm / fully warm), index and slice bounds in -n-2..n+2 and payload "
+         "opcode are solver-partitioned with an exhaustiveness certificate; after the real mutator runs, every derived view (AST, "
+         "summaries, has_*, unsafe/non-standard imports, severity, dumps) equals that of a fresh Pickled over the same opcodes, and again "
+         "after a follow-up edit. Finite-state: the deciding step is the solver-certified exhaustive partition, the views run natively.",
+    technique="CrossHair+z3 solver-partitioned exhaustive fan over (mutator, index, cache state), inductive cold-or-coherent invariant",
+    design="§4 C14")
+
 NOT_APPLICABLE = {
     "C16": "every observable sits behind zipfile/zlib/torch C-level I/O; symbolic inputs are realised at the first call so the solver has nothing to decide (DESIGN §5); the pickle-level half is covered by C08",
 }
